@@ -145,6 +145,10 @@ def decipher_all(decipher: DecipherCallable, objid: int, genno: int, x: object) 
     elif isinstance(x, dict):
         for k, v in x.items():
             x[k] = decipher_all(decipher, objid, genno, v)
+    elif isinstance(x, PDFStream):
+        # strings in a stream's dictionary are encrypted like any other
+        # string of the object; the stream data is deciphered in decode()
+        decipher_all(decipher, objid, genno, x.attrs)
     return x
 
 
